@@ -21,6 +21,7 @@ type linState struct {
 	Present bool
 	Tok     string
 	Expired bool
+	Long    bool // expired longer than DeleteExpiredAfter ago (only in the cleanup variant)
 }
 
 type linIn struct {
@@ -59,7 +60,13 @@ var linModel = (&porcupine.NondeterministicModel{
 		o := out.(linOut)
 		switch i.Kind {
 		case "write":
-			return []interface{}{linState{true, i.Tok, i.Expired}}
+			return []interface{}{linState{true, i.Tok, i.Expired, i.Expired}}
+		case "cleanup":
+			// the janitor's DeleteExpired pass visits the key at one instant: long-expired entries go, everything else stays
+			if s.Present && s.Long {
+				return []interface{}{linState{}}
+			}
+			return []interface{}{s}
 		case "read", "walksaw":
 			switch {
 			case !s.Present:
@@ -86,7 +93,7 @@ var linModel = (&porcupine.NondeterministicModel{
 			return nil
 		case "expireall":
 			if s.Present {
-				return []interface{}{linState{true, s.Tok, true}}
+				return []interface{}{linState{true, s.Tok, true, false}}
 			}
 			return []interface{}{s}
 		case "deleteall":
@@ -104,7 +111,8 @@ var linModel = (&porcupine.NondeterministicModel{
 
 // janitor call-out recorder for the eviction variants
 type linJanitor struct {
-	clock *int64
+	cleanup bool
+	clock   *int64
 	mu    sync.Mutex
 	last  int64
 	evs   []linEv
@@ -135,7 +143,18 @@ func (j *linJanitor) Add(_ context.Context, name string, inc float64, _ ...strin
 	}
 }
 func (j *linJanitor) Set(context.Context, string, float64, ...string) {}
-func (j *linJanitor) evictionNeeded() bool                             { j.mark(); return false }
+func (j *linJanitor) evictionNeeded() bool {
+	t := atomic.AddInt64(j.clock, 1)
+	j.mu.Lock()
+	prev := j.last
+	j.last = t
+	if j.cleanup {
+		// this cycle's DeleteExpired pass ran between the previous call-out and this one
+		j.evs = append(j.evs, linEv{Client: -1, Key: -1, In: linIn{Kind: "cleanup"}, Call: prev, Ret: t})
+	}
+	j.mu.Unlock()
+	return false
+}
 
 func init() {
 	register(&Engine{
@@ -146,7 +165,7 @@ func init() {
 			"with and without LRU/LFU, a third of the histories with the real janitor at 1ms and a count limit (evictions recorded at its cache_evict call-out); call/return stamped from one atomic logical clock at the client boundary with seeded delays; " +
 			"porcupine NondeterministicModel per key (batch ops, evictions and partner writes inserted into every affected key's partition) + walk monitor (reported tokens were written under the key; keys stable during the walk reported exactly once); " +
 			"distinct_nontrivial = distinct histories (hash of the per-key outcome patterns) containing at least one pair of real-time-concurrent conflicting operations on one key",
-		Required:    []string{"histories", "partitions.ok", "histories.concurrent_conflict", "ops.read", "ops.write", "ops.delete", "ops.expireall", "ops.deleteall", "ops.walk", "walk.stable_keys.checked", "evictions.recorded", "kind.ShardedMap", "kind.SyncMap", "kind.ShardedMapOf"},
+		Required:    []string{"histories", "partitions.ok", "histories.concurrent_conflict", "ops.read", "ops.write", "ops.delete", "ops.expireall", "ops.deleteall", "ops.walk", "walk.stable_keys.checked", "evictions.recorded", "cleanup_cycles.recorded", "kind.ShardedMap", "kind.SyncMap", "kind.ShardedMapOf"},
 		Assumptions: []string{"a batch operation is modelled as acting on each key at one instant within its call; an eviction cycle as {unchanged, removed} within [previous janitor call-out, cache_evict call-out]", "checker timeout (30s per key partition) = inconclusive"},
 		Timeout:     func(string) time.Duration { return 30 * time.Minute },
 		ChildEnv:    []string{"GOMAXPROCS=8"},
@@ -191,6 +210,15 @@ func c08Case(b *Batch, idx int) {
 	var clock int64
 	jan := &linJanitor{clock: &clock}
 	cfg := cache.Config{EvictionStrategy: strat, DeleteExpiredAfter: 100 * time.Hour, ExpirationJitter: -1}
+	cleanup := !evict && rng.Intn(2) == 0
+	if cleanup {
+		// the real janitor deletes entries expired more than 30min ago (writes with -1h), never ExpireAll'd or fresh ones
+		cfg.DeleteExpiredJobInterval = time.Millisecond
+		cfg.DeleteExpiredAfter = 30 * time.Minute
+		cfg.Stats = jan
+		cfg.EvictionNeeded = jan.evictionNeeded
+		jan.cleanup = true
+	}
 	if evict {
 		cfg.DeleteExpiredJobInterval = time.Millisecond
 		cfg.CountSoftLimit = uint64(1 + rng.Intn(nKeys))
@@ -297,9 +325,9 @@ func c08Case(b *Batch, idx int) {
 	}
 	close(start)
 	wg.Wait()
-	if evict {
-		// stop recording evictions: collect what was recorded up to now
-		time.Sleep(2 * time.Millisecond)
+	if evict || cleanup {
+		// let the cycle in progress finish so that its call-out is recorded
+		time.Sleep(3 * time.Millisecond)
 	}
 	jan.mu.Lock()
 	evictions := append([]linEv(nil), jan.evs...)
@@ -309,18 +337,22 @@ func c08Case(b *Batch, idx int) {
 	b.R.Eval()
 	b.R.Count("histories", 1)
 	b.R.Count("kind."+kind, 1)
-	b.R.Count("evictions.recorded", int64(len(evictions)))
+	if cleanup {
+		b.R.Count("cleanup_cycles.recorded", int64(len(evictions)))
+	} else {
+		b.R.Count("evictions.recorded", int64(len(evictions)))
+	}
 	var all []linEv
 	for _, l := range logs {
 		all = append(all, l...)
 	}
 	for _, e := range evictions {
-		if e.Ret <= endClock {
+		if e.Call <= endClock {
 			all = append(all, e)
 		}
 	}
 	sort.Slice(all, func(i, j int) bool { return all[i].Call < all[j].Call })
-	desc := fmt.Sprintf("%s/keys=%d/collide=%v/clients=%d/ops=%d/strategy=%d/evict=%v", kind, nKeys, collide, clients, opsPer, strat, evict)
+	desc := fmt.Sprintf("%s/keys=%d/collide=%v/clients=%d/ops=%d/strategy=%d/evict=%v/cleanup=%v", kind, nKeys, collide, clients, opsPer, strat, evict, cleanup)
 	witness := func(k int, part []porcupine.Operation) map[string]interface{} {
 		var ops []string
 		for _, o := range part {
@@ -424,7 +456,7 @@ func c08Case(b *Batch, idx int) {
 				switch {
 				case e.Key == k && (e.In.Kind == "write" || e.In.Kind == "delete"):
 					mut = true
-				case e.Key == -1 && (e.In.Kind == "deleteall" || e.In.Kind == "evict" || e.In.Kind == "expireall"):
+				case e.Key == -1 && (e.In.Kind == "deleteall" || e.In.Kind == "evict" || e.In.Kind == "expireall" || e.In.Kind == "cleanup"):
 					mut = true
 				case collide && k < 2 && e.Key >= 0 && e.Key < 2 && e.Key != k && (e.In.Kind == "write" || e.In.Kind == "delete"):
 					mut = true
@@ -452,7 +484,7 @@ func c08Case(b *Batch, idx int) {
 					continue
 				}
 				mut := (e.Key == k && (e.In.Kind == "write" || e.In.Kind == "delete")) ||
-					(e.Key == -1 && (e.In.Kind == "deleteall" || e.In.Kind == "evict")) ||
+					(e.Key == -1 && (e.In.Kind == "deleteall" || e.In.Kind == "evict" || e.In.Kind == "cleanup")) ||
 					(collide && k < 2 && e.Key >= 0 && e.Key < 2 && e.Key != k && e.In.Kind == "write")
 				if mut && e.Ret > maxOtherRet {
 					maxOtherRet = e.Ret
@@ -461,7 +493,7 @@ func c08Case(b *Batch, idx int) {
 			if maxOtherRet >= lastWrite.Call {
 				continue // the last write is not strictly after every other mutation
 			}
-			if evict {
+			if evict || cleanup {
 				continue // evictions are only recorded when they removed something overall; keep the strict check to eviction-free histories
 			}
 			b.R.Count("walk.stable_keys.checked", 1)
